@@ -241,6 +241,89 @@ def api_behaviours(bdir, tier, rng):
     return execs
 
 
+def eperf_suite(bdir, pid, tier, verdict, objs):
+    """the repository's own eperftool tests (tests/CMakeLists.txt), executed with every API call routed through
+    harness/eperf_shim.c; each recorded execution is validated by ApiTrace like any other trace"""
+    import concurrent.futures as cf
+    import re
+    import subprocess
+    tests = []
+    for ln in open(os.path.join(vlib.REPO, "tests", "CMakeLists.txt")):
+        m = re.match(r"\s*do_test\(\s*(\S+)\s+(.*)\)\s*$", ln)
+        if not m:
+            continue
+        args = m.group(2).split()
+        opt = dict(a.lstrip("-").split("=", 1) for a in args if "=" in a)
+        src, rep = int(opt.get("tot_src", 0)), int(opt.get("tot_rep", 0))
+        if src + rep <= (420 if tier == "quick" else 1000) and "find_min_overhead" not in " ".join(args):
+            tests.append((m.group(1), args))
+    if tier == "quick":
+        tests = tests[::3]
+    exe = vlib.build_eperf_shim(bdir, objs)
+    env = dict(os.environ)
+    env.update(vlib.ASAN_ENV)
+
+    def one(t):
+        name, args = t
+        trc = os.path.join(bdir, "eperf_%s.ndjson" % re.sub(r"[^A-Za-z0-9_.-]", "_", name))
+        e = dict(env)
+        e["EPERF_TRACE"] = trc
+        try:
+            subprocess.run([exe] + args, env=e, capture_output=True, text=True, timeout=300)
+        except subprocess.TimeoutExpired:
+            return (name, args, None)
+        return (name, args, trc if os.path.exists(trc) else None)
+
+    with cf.ThreadPoolExecutor(vlib.NCPU) as ex:
+        runs = [r for r in ex.map(one, tests) if r[2]]
+    # validate: several traces per TLC process
+    groups = [runs[i::vlib.NCPU] for i in range(vlib.NCPU)]
+
+    def val(gi):
+        g = groups[gi]
+        if not g:
+            return []
+        cat = os.path.join(bdir, "eperf_cat_%02d.ndjson" % gi)
+        bounds = []
+        n = 0
+        with open(cat, "w") as f:
+            for (name, args, trc) in g:
+                lines = open(trc).readlines()
+                f.writelines(lines)
+                n += len(lines)
+                bounds.append((n, name, args))
+        r = vlib.run_tlc(os.path.join(vlib.SPEC, "ApiTrace.tla"), os.path.join(vlib.SPEC, "ApiTrace.cfg"),
+                         os.path.join(bdir, "tlc_eperf_%02d" % gi), env={"TRACE": cat}, workers=1, timeout=3000)
+        if "Model checking completed" not in r.out or ("Postcondition" in r.out and "is false" in r.out):
+            raise vlib.Infra("eperftool trace %s not fully consumed:\n%s" % (cat, r.out[-2000:]))
+        out = []
+        for m in apicheck.parse_vmsg(r.out):
+            for (end, name, args) in bounds:
+                if m["line"] <= end:
+                    m["test"], m["args"] = name, args
+                    break
+            out.append(m)
+        return [(out, r.states, r.distinct, n)]
+
+    with cf.ThreadPoolExecutor(vlib.NCPU) as ex:
+        res = [x for lst in ex.map(val, range(len(groups))) for x in lst]
+    msgs = [m for (ms, _, _, _) in res for m in ms]
+    infra = [m for m in msgs if "INFRA" in m["tags"]]
+    if infra:
+        raise vlib.Infra("eperftool trace violates the driver protocol assumed by the spec: %r" % infra[:3])
+    for m in msgs:
+        if pid in m["tags"] or m["check"].startswith("memfault-"):
+            d = os.path.join(vlib.VERIF, "replays", pid)
+            os.makedirs(d, exist_ok=True)
+            fn = os.path.join(d, "eperftool_%s.cmd" % m.get("test", "unknown"))
+            with open(fn, "w") as f:
+                f.write("# eperftool test whose recorded execution is rejected by ApiTrace (%s, line %d)\neperftool %s\n"
+                        % (m["check"], m["line"], " ".join(m.get("args", []))))
+            verdict.report("%s/codec%s" % (m["check"], m["codec"]), "eperftool test %s" % m.get("test"), fn)
+    return {"tests_run": len(runs), "trace_lines": sum(x[3] for x in res), "states": sum(x[1] for x in res),
+            "distinct": sum(x[2] for x in res)}
+
+
 def workload(pid, tier, rng):
     q = tier == "quick"
     execs = []
@@ -248,7 +331,7 @@ def workload(pid, tier, rng):
     ld_mid = [p for p in gen.ldpc_points(16) if p.n > (10 if q else 12)][: (2 if q else 6)]
     rs_small = gen.rs_points(6 if q else 8, ms=(4, 8))
     rs_mid = [p for p in gen.rs_points(10 if q else 12, ms=(4,), codecs=(2,)) if p.n > (6 if q else 8)]
-    cbs_all = (None, "buf", "null", "mix")
+    cbs_all = (None, "buf", "null", "mix", "buf rep", "null rep")
     if pid == "C01":
         execs += ldpc_exhaustive(ld_small[:4 if q else 8], rng, apis=("recv", "setavail"), finish=(True, False), orders=1, probe="end")
         execs += ldpc_exhaustive(ld_small[:2 if q else 4], rng, apis=("recv",), cbs=("buf", "mix"), orders=2, probe="end")
@@ -396,6 +479,9 @@ def run(pid, tier):
             mc_trans += mc.states
             mc_runs.append({"spec": spec, "cfg": cfg, "distinct": mc.distinct, "generated": mc.states})
         drv = vlib.build_driver(bdir)
+        ep = None
+        if pid in ("C10", "C01", "C02"):
+            ep = eperf_suite(bdir, pid, tier, verdict, vlib.build_lib(bdir))
         execs = workload(pid, tier, rng)
         ngen = 0
         if pid in ("C04", "C01"):
@@ -421,15 +507,16 @@ def run(pid, tier):
         distinct = len({tuple(e) for e in execs})
         nontrivial = apicheck.nontrivial_distinct(api, NONTRIVIAL.get(pid, lambda x: x[6] > 3))
         cov = {
-            "states": mc_states + api["distinct"],
-            "transitions": mc_trans + api["states"],
-            "traces_validated_against_impl": api["execs"],
+            "states": mc_states + api["distinct"] + (ep["distinct"] if ep else 0),
+            "transitions": mc_trans + api["states"] + (ep["states"] if ep else 0),
+            "traces_validated_against_impl": api["execs"] + (ep["tests_run"] if ep else 0),
             "samples": apicheck.sample_execs(lines, 3),
             "evaluations": len(execs),
             "distinct_nontrivial": nontrivial,
             "rule": RULES.get(pid, "executions distinct as behaviour texts; non-trivial = more than create/params/release"),
             "model_runs": mc_runs,
             "spec_counters": apicheck.stats_summary(api),
+            "eperftool_tests_validated": ep,
             "tlc_generated_behaviours_replayed": ngen,
             "layer_b_steps_matched": api.get("itsteps", 0), "layer_b_finish_calls_matched": api.get("mlsteps", 0), "layer_b_bound": (len(api["drift"]) == 0) if strict else None,
             "drift_lines": len(api["drift"]),
